@@ -169,6 +169,9 @@ def run(ctx):
         else:
             if r in ('ok-nofile', 'ok-rereaderr', 'err-but-wrote'):
                 return 'pom.xml Write: ' + r
+            if r == 'ok' and fi.get('twin') == '0':
+                return ('pom.xml: a plugin under <build><plugins> whose dependencies Read does not list (no update is addressed to them) was rewritten along '
+                        'with its pluginManagement twin')
             if r == 'ok' and fm.get('added', '-') not in ('-', ''):
                 got = fi.get('reqs', '').split(',')
                 if any(a not in got for a in fm['added'].split(',')):
